@@ -260,6 +260,24 @@ func genTyped(r *rng) *cdrFile.CDRFile {
 	return f
 }
 
+// wfLen: the number of octets TS 32.297 prescribes for a well-formed file
+func wfLen(f *cdrFile.CDRFile) int {
+	n := 52 + len(f.Hdr.CDRRouteingFilter) + len(f.Hdr.PrivateExtension)
+	if f.Hdr.HighReleaseIdentifier == 7 {
+		n++
+	}
+	if f.Hdr.LowReleaseIdentifier == 7 {
+		n++
+	}
+	for _, c := range f.CdrList {
+		n += 4 + len(c.CdrByte)
+		if c.Hdr.ReleaseIdentifier == 7 {
+			n++
+		}
+	}
+	return n
+}
+
 var cdrTmp string
 
 func tmpPath() string {
@@ -345,6 +363,26 @@ func init() {
 		gen: func(o genOpts, w *bufio.Writer) {
 			r := &rng{s: o.seed}
 			big := o.tier == "thorough"
+			// (first in the stream: after the large files below the heap is big, collections are rare, and buffers recycled between
+			// goroutines - the kind of sharing this operation is after - hardly ever change hands)
+			// files written by several goroutines at once (as concurrent charging requests do): every one of them must
+			// come out as when written alone
+			for i := 0; i < 4; i++ {
+				f := genWF(r, r.intn(64), false)
+				// many small records: the record headers are where encoders like to share buffers
+				for len(f.CdrList) < 400 {
+					body := r.bytes(1 + r.intn(6))
+					var h cdrFile.CdrHeader
+					h.CdrLength = uint16(len(body))
+					h.DataRecordFormat = cdrFile.BasicEncodingRules
+					h.ReleaseIdentifier = cdrFile.ReleaseIdentifierType(r.intn(7))
+					h.VersionIdentifier = uint8(r.intn(32))
+					h.TsNumber = cdrFile.TsNumberIdentifier(r.intn(32))
+					f.CdrList = append(f.CdrList, cdrFile.CDR{Hdr: h, CdrByte: body})
+				}
+				f.Hdr.NumberOfCdrsInFile = uint32(len(f.CdrList))
+				fmt.Fprintf(w, "cdrfile conc %s\n", sFile(f))
+			}
 			// files beyond 2^16 / 2^24 octets (records of up to 65535 octets)
 			fmt.Fprintf(w, "cdrfile big 3 65535 %d\n", r.intn(256))
 			fmt.Fprintf(w, "cdrfile big 257 65535 %d\n", r.intn(256))
@@ -379,23 +417,30 @@ func init() {
 					fmt.Fprintf(w, "cdrfile dec %s\n", hexOf(b))
 				}
 			}
-			// files written by several goroutines at once (as concurrent charging requests do): every one of them must
-			// come out as when written alone
-			for i := 0; i < 4; i++ {
+			// the destination already exists: other content (shorter, as long, longer, much longer than what is written now),
+			// other permission bits; and a file written over a file this code wrote before (longer first / shorter first)
+			nOver, nRew := 48, 24
+			if big {
+				nOver, nRew = 400, 200
+			}
+			for i := 0; i < nOver; i++ {
 				f := genWF(r, r.intn(64), false)
-				// many small records: the record headers are where encoders like to share buffers
-				for len(f.CdrList) < 400 {
-					body := r.bytes(1 + r.intn(6))
-					var h cdrFile.CdrHeader
-					h.CdrLength = uint16(len(body))
-					h.DataRecordFormat = cdrFile.BasicEncodingRules
-					h.ReleaseIdentifier = cdrFile.ReleaseIdentifierType(r.intn(7))
-					h.VersionIdentifier = uint8(r.intn(32))
-					h.TsNumber = cdrFile.TsNumberIdentifier(r.intn(32))
-					f.CdrList = append(f.CdrList, cdrFile.CDR{Hdr: h, CdrByte: body})
+				l := wfLen(f)
+				n := []int{-1, 0, 1, l - 1, l, l + 1, l + 54, 2*l + 100, l + 4096, r.intn(2*l + 1), l + 1 + r.intn(300), 70000}[i%12]
+				ns := "-"
+				if n >= 0 {
+					ns = strconv.Itoa(n)
 				}
-				f.Hdr.NumberOfCdrsInFile = uint32(len(f.CdrList))
-				fmt.Fprintf(w, "cdrfile conc %s\n", sFile(f))
+				fmt.Fprintf(w, "cdrfile over %s %s %d %s\n", r.pickStr("600", "644", "666", "660"), ns, r.intn(256), sFile(f))
+			}
+			for i := 0; i < nRew; i++ {
+				a, b := genWF(r, r.intn(64), false), genWF(r, r.intn(64), false)
+				la, lb := wfLen(a), wfLen(b)
+				// two in three: the longer file first
+				if (i%3 != 2) != (la >= lb) {
+					a, b = b, a
+				}
+				fmt.Fprintf(w, "cdrfile rewrite %s | %s\n", sFile(a), sFile(b))
 			}
 			if cdrTmp != "" {
 				os.RemoveAll(cdrTmp)
@@ -484,6 +529,61 @@ func init() {
 						DataRecordFormat: 1, TsNumber: 0}, CdrByte: body})
 				}
 				return bigRoundTrip(f)
+			case "over":
+				// cdrfile over <perm> <n|-> <fill> <file>: the destination holds n octets (pattern from fill) with permission
+				// bits perm when Encoding is called; what is on disk afterwards is read back whole
+				if len(toks) < 5 {
+					return "bad-op"
+				}
+				f, ok := pFile(toks[4:])
+				perm, err := strconv.ParseUint(toks[1], 8, 32)
+				fill, err2 := strconv.Atoi(toks[3])
+				if !ok || err != nil || err2 != nil {
+					return "bad-op"
+				}
+				if toks[2] != "-" {
+					n, err := strconv.Atoi(toks[2])
+					if err != nil || n < 0 || n > 1<<24 {
+						return "bad-op"
+					}
+					old := make([]byte, n)
+					for j := range old {
+						old[j] = byte(fill + j*7)
+					}
+					if err := os.WriteFile(tmpPath(), old, os.FileMode(perm)); err != nil {
+						panic(err)
+					}
+					_ = os.Chmod(tmpPath(), os.FileMode(perm))
+				}
+				b := encodeToBytes(f)
+				g, p := decodeBytes(b)
+				if p {
+					return "panic " + hexOf(b)
+				}
+				return "ok " + hexOf(b) + " " + sFile(g)
+			case "rewrite":
+				// cdrfile rewrite <file A> | <file B>: Encoding(A) then Encoding(B) to the same path
+				sep := -1
+				for i, x := range toks {
+					if x == "|" {
+						sep = i
+					}
+				}
+				if sep < 0 {
+					return "bad-op"
+				}
+				a, ok1 := pFile(toks[1:sep])
+				f, ok2 := pFile(toks[sep+1:])
+				if !ok1 || !ok2 {
+					return "bad-op"
+				}
+				_ = encodeToBytes(a)
+				b := encodeToBytes(f)
+				g, p := decodeBytes(b)
+				if p {
+					return "panic " + hexOf(b)
+				}
+				return "ok " + hexOf(b) + " " + sFile(g)
 			case "rt":
 				f, ok := pFile(toks[1:])
 				if !ok {
